@@ -588,6 +588,8 @@ int run_check(const std::string& prop, const std::string& tier, uint64_t seed, i
 
     // unit list, interleaved over workers
     std::vector<Unit> units;
+    // (debug aids, not used by any registered command: JV_SCALE=<percent> shrinks every batch to that share of its runs - a smoke test of a thorough tier)
+    if (const char* sc = getenv("JV_SCALE")) { double f = atof(sc) / 100.0; if (f > 0 && f < 1) for (auto& b : spec.batches) b.runs = std::max<uint64_t>(1, (uint64_t) (b.runs * f)); }
     if (!getenv("JV_ONLY_STATIC")) for (size_t b = 0; b < spec.batches.size(); b++) for (uint64_t i = 0; i < spec.batches[b].runs; i++) units.push_back({b, i});   // (debug aid: JV_ONLY_STATIC=1 runs the static phases alone)
     std::vector<Worker> ws((size_t) workers);
     for (size_t i = 0; i < units.size(); i++) ws[i % ws.size()].todo.push_back(units[i]);
